@@ -243,6 +243,14 @@ fn cmd_gen(args: &[String]) {
             sets.push(("import-pairs".to_string(), m));
         }
     }
+    // systematic single-column FK chains: acyclic, cycles, rho shapes (tail into a cycle)
+    let mut n_chain_sets = 0usize;
+    if arg(args, "--fk-chains", "1") == "1" {
+        for m in advgen::gen_fk_chain_sets() {
+            sets.push(("fk-chains".to_string(), m));
+            n_chain_sets += 1;
+        }
+    }
     // systematic name shapes for every sanitising function
     if arg(args, "--name-shapes", "1") == "1" {
         for m in advgen::gen_name_shape_sets() {
@@ -465,7 +473,7 @@ fn cmd_gen(args: &[String]) {
         }
     }
     // FK-shaped sets (including cyclic ones) also go through every stage
-    for (tag, m) in sets.iter().filter(|(t, _)| !t.starts_with("corpus:") && t != "import-pairs" && t != "name-shapes").take(nevo) {
+    for (tag, m) in sets.iter().filter(|(t, _)| !t.starts_with("corpus:") && t != "import-pairs" && t != "name-shapes").take(nevo + n_chain_sets) {
         push16(&mut c16, &format!("models:{}", tag), m, &vec![], true);
     }
     std::fs::write(outdir.join("c16cases.jsonl"), c16).unwrap();
